@@ -328,7 +328,7 @@ def _special_value_maxLength(em, newValue=NOT_PROVIDED):
         # If we are setting, we should raise an exception upon invalid value
         invalidDefault = IndexSizeErrorException
 
-    return convertToIntRange(curValue, minValue=0, maxValue=None, emptyValue='0', invalidDefault=invalidDefault)
+    return convertToIntRange(curValue, minValue=0, maxValue=None, emptyValue=0, invalidDefault=invalidDefault)
 
 
 
